@@ -4,6 +4,7 @@ Every instruction immediate / li value / data word that refers to a label is dec
 output and compared with the source expression evaluated over the *final* label offsets, which are taken from
 the blob stream (where the bytes ended up), and over the final offset of the item containing it.
 """
+import json
 import random
 import time
 
@@ -115,6 +116,10 @@ def build(rng):
     items = []
     for it, o in zip(skeleton, offs):
         items.append(make_use(rng, labs, pess, o) if it['k'] == 'USE' else it)
+    if rng.random() < 0.2:
+        # a symbol of the environment (in the caller's label table, not defined here) referenced behind aligns and shrinking items
+        items += [{'k': 'align', 'n': rng.choice([4, 8, 64])}, {'k': 'data', 'd': 'dw', 'val': {'labconst': 'EXTSYM'}}, {'k': 'pseudo', 'm': 'li', 'ops': [{'r': 6}, {'labconst': 'EXTSYM'}]},
+                  {'k': 'inst', 'm': 'lui', 'ops': [{'r': 7}, {'hi': {'labconst': 'EXTSYM'}}]}, {'k': 'inst', 'm': 'addi', 'ops': [{'r': 7}, {'r': 7}, {'lo': {'labconst': 'EXTSYM'}}]}]
     if rng.random() < 0.08:
         # a constant defined from labels (`LEN = L1 - S`): refused by the current assembler; a build that accepts it owes the
         # final value like any other label arithmetic
@@ -178,9 +183,19 @@ def run_case(asm, acc, case):
         from ..gen import variants
         lines = variants.vary(rng, items, P.render(items))
         eol = rng.choice(['\n', '\r\n'])
+    extern = None
+    if any('EXTSYM' in json.dumps(it) for it in items):
+        extern = {'EXTSYM': 0x20000000 + 4 * rng.randrange(0, 1000)}
+        if preseed is None or 'labels' in preseed and not preseed.get('notables'):
+            preseed = {'labels': dict((preseed or {}).get('labels', {}), **extern)}
+        else:
+            items = [it for it in items if 'EXTSYM' not in json.dumps(it)]      # a caller without tables has no externals
+            extern = None
     for compress in (False, True):
         rcase = dict(case, compress=compress)
-        ex = progcheck.examine(asm, items, compress, seed=case['idx'], nregs=3, preseed=preseed, lines=lines, eol=eol)
+        ex = progcheck.examine(asm, items, compress, seed=case['idx'], nregs=3, preseed=preseed, lines=lines, eol=eol, extern=extern)
+        if extern and ex.ok and ex.labels_reported is not None and ex.labels_reported.get('EXTSYM') != extern['EXTSYM']:
+            core.add_viol(acc, 'the caller\'s external symbol EXTSYM = %#x came back as %r (compress=%s)' % (extern['EXTSYM'], ex.labels_reported.get('EXTSYM'), compress), rcase, {})
         acc['ctr']['builds'] += 1
         if not ex.ok:
             acc['ctr']['refused'] += 1
